@@ -365,12 +365,84 @@ func (e *Engine) assume(t *Term) {
 	e.learn(t, true)
 }
 
+// noteBound tightens the cached unsigned interval of x when the path condition
+// gains a comparison of x with a constant. Sound: the bound holds for the rest
+// of the path, and terms are rebuilt for every path.
+func (e *Engine) noteBound(t *Term) {
+	neg := false
+	if t.Op == OBNot {
+		neg = true
+		t = t.A[0]
+	}
+	if t.Op != OUlt && t.Op != OUle && t.Op != OEq {
+		return
+	}
+	a, b := t.A[0], t.A[1]
+	tighten := func(x *Term, lo, hi uint64) {
+		if x.IsConst() || x.W == 0 {
+			return
+		}
+		r := rng(x)
+		if lo > r.lo {
+			r.lo = lo
+		}
+		if hi < r.hi {
+			r.hi = hi
+		}
+		if r.lo <= r.hi {
+			x.rng, x.rngOK = r, true
+		}
+	}
+	const maxU = ^uint64(0)
+	switch {
+	case t.Op == OEq && !neg && b.IsConst():
+		tighten(a, b.C, b.C)
+	case t.Op == OEq && !neg && a.IsConst():
+		tighten(b, a.C, a.C)
+	case t.Op == OUlt && b.IsConst(): // a < K   /  !(a < K) = a >= K
+		if !neg {
+			if b.C > 0 {
+				tighten(a, 0, b.C-1)
+			}
+		} else {
+			tighten(a, b.C, maxU)
+		}
+	case t.Op == OUlt && a.IsConst(): // K < b   /  b <= K
+		if !neg {
+			if a.C < maxU {
+				tighten(b, a.C+1, maxU)
+			}
+		} else {
+			tighten(b, 0, a.C)
+		}
+	case t.Op == OUle && b.IsConst(): // a <= K  /  a > K
+		if !neg {
+			tighten(a, 0, b.C)
+		} else if b.C < maxU {
+			tighten(a, b.C+1, maxU)
+		}
+	case t.Op == OUle && a.IsConst(): // K <= b  /  b < K
+		if !neg {
+			tighten(b, a.C, maxU)
+		} else if a.C > 0 {
+			tighten(b, 0, a.C-1)
+		}
+	}
+}
+
 // learn records that c has the given truth value on this path (for c and for its
 // negation form, identically for forced and for replayed decisions).
 func (e *Engine) learn(c *Term, v bool) {
 	e.known[c] = v
 	if c.Op == OBNot {
 		e.known[c.A[0]] = !v
+	}
+	// identical for forced decisions (original path) and replayed ones, so that both
+	// see the same intervals and therefore make the same sequence of decisions
+	if v {
+		e.noteBound(c)
+	} else {
+		e.noteBound(e.tf.Not(c))
 	}
 }
 
